@@ -251,6 +251,39 @@ pub fn run(prop: &str, tier: &str, replay: Option<&str>) -> i32 {
         });
         rep.add(sec);
     }
+    // 1a. the public half alone: no signing, so every size this back end can export is affordable in the quick tier too
+    {
+        let cases: Vec<(usize, bool)> = (0..zoo.len()).filter(|i| zoo[*i].kind.backend_kind_ok()).flat_map(|i| [(i, false), (i, true)]).collect();
+        let sec = Section::new("spki/parse-back of every exportable public key", "the SubjectPublicKeyInfo OpenSSL derives from every fixture key of a kind this back end loads (RSA up to the largest size), given to SubjectPublicKeyInfo::from_der and, armoured, to from_pem: same algorithm (family for RSA), same key bits");
+        run::sweep_cases(&sec, &cases, &|c| format!("{} spki {}", zoo[c.0].name, if c.1 { "pem" } else { "der" }), &|c| {
+            let z = &zoo[c.0];
+            let mut out = Outcome::default();
+            out.transitions = 1;
+            let what = if c.1 { "SubjectPublicKeyInfo::from_pem" } else { "SubjectPublicKeyInfo::from_der" };
+            let want_alg = z.kind.natural_alg();
+            let got = if c.1 {
+                let text = refmodel::pem::encode("PUBLIC KEY", &z.spki);
+                guarded(|| rcgen::SubjectPublicKeyInfo::from_pem(&text))
+            } else {
+                guarded(|| rcgen::SubjectPublicKeyInfo::from_der(&z.spki))
+            };
+            let mut f = Vec::new();
+            match got {
+                Ok(Ok(s)) => {
+                    let back = alg_of(s.algorithm());
+                    let alg_ok = if want_alg.is_rsa() { back.map(|b| b.is_rsa()).unwrap_or(false) } else { back == Some(want_alg) };
+                    if !alg_ok || s.der_bytes() != z.raw_pub {
+                        f.push(Finding::new("KEY-SPKI-PARSE-BACK", what, format!("returns {:?} with {} key octets, expected {} with {}", s.algorithm(), s.der_bytes().len(), want_alg.name(), z.raw_pub.len())));
+                    }
+                    out.digest = fnv(s.der_bytes());
+                }
+                other => f.push(Finding::new("KEY-SPKI-PARSE-BACK", what, format!("{:?}", other.map(|r| r.map(|_| ()))))),
+            }
+            out.findings = f;
+            out
+        });
+        rep.add(sec);
+    }
     // 1b. the PrivateKeyDer variant is the caller's claim, not a property of the bytes: every fixture key under every
     // variant through the two entry points that take one; a mismatching claim is refused or, if the key loads, it is
     // the right key with the right algorithm
